@@ -227,7 +227,9 @@ class Contenders(Job):
                            schedule_steps=steps, inbound_bytes="symbolic, exact expected length per contender (solver decides match/mismatch at any byte)",
                            variant={None: "all attempts pending when connect() returns its Deferred",
                                     "syncfail": "the first direct hint's endpoint fails synchronously (invalid hostname): its contender Deferred has already fired when there_can_be_only_one starts",
-                                    "early-inbound": "an inbound connection arrives and delivers its bytes after get_connection_hints() but before connect() is called"}[variant])
+                                    "early-inbound": "an inbound connection arrives and delivers its bytes after get_connection_hints() but before connect() is called",
+                                    "late-bytes": "closing is asynchronous (TLS-like / proxied transports): after the code under test called loseConnection() on a contender, bytes already "
+                                                  "in flight may still be delivered before connectionLost is reported (both are schedule actions)"}[variant])
         self.must_reach = ("nt:winner", "nt:failed")
 
     def build(self):
@@ -332,6 +334,8 @@ class Contenders(Job):
             d = o.connect()
             d.addCallbacks(lambda c: result.append(("ok", c)), lambda f: result.append(("err", f.type.__name__)))
 
+            cancelled = []
+
             def actions():
                 acts = []
                 for i, p in enumerate(net.pending):
@@ -347,6 +351,8 @@ class Contenders(Job):
                         acts.append(("lose", i))
                 if clock.getDelayedCalls():
                     acts.append(("timer", 0))
+                if self.variant == "late-bytes" and not result and not cancelled:
+                    acts.append(("cancel", 0))       # the application gives up: it cancels the Deferred connect() returned
                 return acts
 
             for step in range(self.steps):
@@ -396,11 +402,16 @@ class Contenders(Job):
                 elif kind == "timer":
                     nxt = min(dc.getTime() for dc in clock.getDelayedCalls())
                     clock.advance(max(0, nxt - clock.seconds()))
-                # transports closed by the code under test are reported lost by the reactor
-                for ent in conns:
-                    if ent["c"].transport.lost and not ent["lost"]:
-                        ent["lost"] = True
-                        ent["c"].connectionLost(failure.Failure(error.ConnectionDone()))
+                elif kind == "cancel":
+                    cancelled.append(1)
+                    d.cancel()
+                # transports closed by the code under test are reported lost by the reactor (at once, or - variant late-bytes - only when the
+                # schedule says so: the "lose" action of such a connection is that report)
+                if self.variant != "late-bytes":
+                    for ent in conns:
+                        if ent["c"].transport.lost and not ent["lost"]:
+                            ent["lost"] = True
+                            ent["c"].connectionLost(failure.Failure(error.ConnectionDone()))
                 if symbolic:
                     self.invariants(o, conns, result, final=False)
             # fair completion: let all timers expire (2*TIMEOUT deadline included)
@@ -439,6 +450,11 @@ class Contenders(Job):
                 check(ok, "connection selected although its handshake bytes deviate (party without the key)")
             if b"go\n" in e["c"].transport.w:
                 check(sym_and(ok, complete), "go sent to a connection without the correct receiver handshake")
+        if result and o.is_sender:
+            # the Sender confirms exactly one connection and that is the one connect() hands out: a "go" on any other connection (e.g. on a
+            # contender that was cancelled but whose close has not completed yet) puts the two connect() results on different links
+            for e in go_writers:
+                check(result[0][0] == "ok" and result[0][1] is e["c"], "go was written to a connection that is not what connect() returned")
         if result:
             if result[0][0] == "ok":
                 w = result[0][1]
@@ -478,6 +494,10 @@ class Contenders(Job):
             good = e["x"][:n] == e["exp"][:n] and n == len(e["exp"])
             if (e["c"].state == "records" or e in go) and not good:
                 return "connection selected/confirmed with inbound %r, expected %r (schedule %r)" % (e["x"][:n], e["exp"], r["sched"])
+        if result and o.is_sender:
+            for e in go:
+                if not (result[0][0] == "ok" and result[0][1] is e["c"]):
+                    return "go was written to a connection that is not what connect() returned (%r) (schedule %r)" % (result[0][:1], r["sched"])
         if not result:
             return "connect() still pending after all timers expired (schedule %r)" % (r["sched"],)
         if r.get("uncancelled"):
@@ -512,6 +532,7 @@ def jobs(tier):
         J.append(Contenders(sender, 1, k, False, True))
         J.append(Contenders(sender, 2, k, False, False, "syncfail"))
         J.append(Contenders(sender, 1, k - 1, True, True, "early-inbound"))
+        J.append(Contenders(sender, 1, k, True, False, "late-bytes"))
         if thorough:
             J.append(Contenders(sender, 2, k - 1, True, True))
             J.append(Contenders(sender, 3, k - 1, False, False))
